@@ -23,6 +23,7 @@ import (
 	"testing"
 	"time"
 
+	"github.com/gotid/god/lib/timex"
 	"pgregory.net/rapid"
 	"verif.local/kit"
 )
@@ -1167,4 +1168,146 @@ func TestVerif_C09_window_longlived(t *testing.T) {
 			return c
 		},
 		func(c c09lCase) kit.Verdict { return c09lInterp(t, c) })
+}
+
+// An Add that WAITS for the window lock across a bucket boundary (the lock is
+// held by a Reduce whose callback is slow). Inside a synctest bubble this cannot
+// be expressed: a goroutine parked on sync.RWMutex is not durably blocked, so
+// virtual time cannot advance while the Add waits. This rule therefore runs on
+// the REAL clock, outside any bubble, with 200 ms buckets and every operation
+// placed mid-bucket. It stays sound under any scheduling delay because nothing
+// is assumed about the clock: every operation is bracketed by two timex.Now()
+// readings, bucket indices are computed from those readings on the grid anchored
+// at the window's own creation stamp, a sequential operation whose two readings
+// fall into different buckets makes the case Excluded ("timing-ambiguous"), and
+// the Add that waited may count in ANY bucket between the one of its call and
+// the one of its return. Oracle: the statement's window contents after the adds
+// that follow the waiting Add (every add has its own bit).
+type c09kCase struct {
+	Size int `json:"size"`
+	K    int `json:"k"`    // bucket boundaries that pass while the Add waits
+	Post int `json:"post"` // sequential adds after the waiting Add has returned
+}
+
+const c09kIv = 200 * time.Millisecond
+
+func c09kInterp(c c09kCase) (v kit.Verdict) {
+	if c.Size < 2 || c.Size > 16 || c.K < 1 || c.K > 3 || c.Post < 1 || c.Post > 3 {
+		v.Excluded = true
+		return v
+	}
+	rw := NewRollingWindow(c.Size, c09kIv)
+	t0 := rw.lastTime // the grid anchor, exactly as the window sees it
+	bucketOf := func(t time.Duration) int64 { return int64((t - t0) / c09kIv) }
+	type add struct {
+		lo, hi int64 // bucket of the call, bucket of the return
+		id     int
+	}
+	var adds []add
+	ambiguous := false
+	seqAdd := func() {
+		id := len(adds)
+		b := timex.Now()
+		rw.Add(float64(uint64(1) << uint(id)))
+		a := timex.Now()
+		adds = append(adds, add{bucketOf(b), bucketOf(a), id})
+		if bucketOf(b) != bucketOf(a) {
+			ambiguous = true
+		}
+	}
+	seqAdd() // bucket 0
+
+	stalled, release, reduceDone := make(chan struct{}), make(chan struct{}), make(chan struct{})
+	go func() {
+		defer close(reduceDone)
+		first := true
+		rw.Reduce(func(b *Bucket) {
+			if first {
+				first = false
+				close(stalled)
+				<-release
+			}
+		})
+	}()
+	<-stalled
+	calling, addDone := make(chan struct{}), make(chan struct{})
+	var wb, wa time.Duration
+	go func() {
+		defer close(addDone)
+		wb = timex.Now()
+		close(calling)
+		rw.Add(float64(uint64(1) << 1))
+		wa = timex.Now()
+	}()
+	<-calling
+	time.Sleep(10 * time.Millisecond) // let the adder reach the lock
+	// hold the reduction until the middle of bucket K
+	if d := t0 + time.Duration(c.K)*c09kIv + c09kIv/2 - timex.Now(); d > 0 {
+		time.Sleep(d)
+	}
+	close(release)
+	<-reduceDone
+	<-addDone
+	adds = append(adds, add{bucketOf(wb), bucketOf(wa), 1})
+	if bucketOf(wa) > bucketOf(wb) {
+		v.Classes = append(v.Classes, "add-waited-across-boundary")
+	}
+	for i := 0; i < c.Post; i++ {
+		seqAdd()
+	}
+	rb := timex.Now()
+	var got []c09wBucket
+	rw.Reduce(func(b *Bucket) {
+		if b.Sum != 0 || b.Count != 0 {
+			got = append(got, c09wBucket{sum: uint64(b.Sum), count: b.Count})
+		}
+	})
+	ra := timex.Now()
+	if bucketOf(rb) != bucketOf(ra) {
+		ambiguous = true
+	}
+	if ambiguous {
+		v.Excluded = true
+		v.Classes = append(v.Classes, "timing-ambiguous")
+		return v
+	}
+	v.NonTrivial = bucketOf(wa) > bucketOf(wb)
+	cur := bucketOf(ra)
+	sort.Slice(got, func(i, j int) bool { return got[i].sum < got[j].sum })
+	gs := fmt.Sprint(got)
+	w := adds[1]
+	var legal []string
+	for wbk := w.lo; wbk <= w.hi; wbk++ {
+		var ref []c09wAdd
+		for _, a := range adds {
+			b := a.lo
+			if a.id == 1 {
+				b = wbk
+			}
+			ref = append(ref, c09wAdd{bucket: b, id: a.id})
+		}
+		s := c09rWindow(ref, cur, int64(c.Size), false)
+		if s == gs {
+			return v
+		}
+		legal = append(legal, fmt.Sprintf("waiting add counted in bucket %d: %s", wbk, s))
+	}
+	return v.Failf("an Add (#1) called in bucket %d waited for the window lock until bucket %d; after %d further adds in bucket(s) %v a Reduce in bucket %d saw %s; legal: %v",
+		w.lo, w.hi, c.Post, func() (bs []int64) {
+			for _, a := range adds[2:] {
+				bs = append(bs, a.lo)
+			}
+			return
+		}(), cur, gs, legal)
+}
+
+func TestVerif_C09_window_add_waits_for_lock(t *testing.T) {
+	kit.Run(t, "C09", "window-add-waits-for-lock", kit.Opts{Quick: 4, Thorough: 48},
+		func(rt *rapid.T) c09kCase {
+			return c09kCase{
+				Size: rapid.IntRange(3, 6).Draw(rt, "size"),
+				K:    rapid.IntRange(1, 2).Draw(rt, "k"),
+				Post: rapid.IntRange(1, 3).Draw(rt, "post"),
+			}
+		}, c09kInterp)
 }
